@@ -26,6 +26,7 @@ struct Outcome {
     uint64_t cases = 0;     // executions of the system under simulation performed
     std::vector<uint64_t> nontrivial; // digests of distinct non-trivial cases (see DESIGN 2.10)
     std::vector<Bind> binds;
+    std::string concrete_plan; // optional: full text of the concretised plan (e.g. with the recorded schedule)
     bool violation() const { return cls != "ok" && cls != "skip"; }
 };
 
@@ -78,6 +79,9 @@ class Engine {
     virtual std::vector<std::string> fixed_args() const { return {}; }
     // optional engine-specific simplifications
     virtual std::vector<Plan> simplify(const Plan &) { return {}; }
+    // true if a violating run may have damaged the process (no sanitizer in this
+    // build): the worker then restarts instead of carrying the damage along
+    virtual bool restart_after_violation() const { return false; }
     // extra engine report (json object body without braces) appended to STATS
     virtual std::string report_json() { return ""; }
 };
